@@ -34,6 +34,7 @@ using namespace llvm;
 static bool optUB = false;
 static std::set<std::string> modelFns;     // externals provided by the runtime model
 static std::set<std::string> stubbedFns;   // defined functions to be treated as external (cut)
+static std::set<std::string> guardFns;     // functions whose loads/stores get assert-then-assume validity guards
 
 [[noreturn]] static void die(const std::string& m) {
   std::cerr << "ir2c: unsupported: " << m << "\n";
@@ -565,8 +566,14 @@ struct Emitter {
           break;
         }
         case Instruction::Load:
+          // kernel functions: an invalid access is reported AND the path ends there (execution after UB is meaningless and
+          // makes symbolic execution explode); CBMC's own pointer check at the access below is then subsumed
+          if (guardFns.count(F->getName().str()) && !isa<AllocaInst>(I.getOperand(0)->stripPointerCasts()) && !isa<GlobalVariable>(I.getOperand(0)->stripPointerCasts()))
+            body << "  __CPROVER_assert(__CPROVER_r_ok(" << V(I.getOperand(0)) << ", sizeof(*" << V(I.getOperand(0)) << ")), \"C01: invalid memory read (null or dangling pointer)\"); __CPROVER_assume(__CPROVER_r_ok(" << V(I.getOperand(0)) << ", sizeof(*" << V(I.getOperand(0)) << ")));\n";
           body << "  " << L << " = *" << V(I.getOperand(0)) << ";\n"; break;
         case Instruction::Store:
+          if (guardFns.count(F->getName().str()) && !isa<AllocaInst>(I.getOperand(1)->stripPointerCasts()) && !isa<GlobalVariable>(I.getOperand(1)->stripPointerCasts()))
+            body << "  __CPROVER_assert(__CPROVER_w_ok(" << V(I.getOperand(1)) << ", sizeof(*" << V(I.getOperand(1)) << ")), \"C01: invalid memory write (null or dangling pointer)\"); __CPROVER_assume(__CPROVER_w_ok(" << V(I.getOperand(1)) << ", sizeof(*" << V(I.getOperand(1)) << ")));\n";
           body << "  *" << V(I.getOperand(1)) << " = " << V(I.getOperand(0)) << ";\n"; break;
         case Instruction::GetElementPtr:
           body << "  " << L << " = (" << cty(T) << ")" << gepExpr(cast<GEPOperator>(&I), V) << ";\n"; break;
@@ -1025,6 +1032,7 @@ int main(int argc, char** argv) {
     else if (a == "--ub-checks") optUB = true;
     else if (a == "--model-list") { std::ifstream f(argv[++i]); std::string l; while (std::getline(f, l)) if (!l.empty()) modelFns.insert(l); }
     else if (a == "--stub") stubbedFns.insert(argv[++i]);
+    else if (a == "--guard-list") { std::ifstream f(argv[++i]); std::string l; while (std::getline(f, l)) if (!l.empty()) guardFns.insert(l); }
     else in = a;
   }
   LLVMContext C; SMDiagnostic E;
